@@ -5,6 +5,7 @@
 package main
 
 import (
+	"context"
 	"encoding/json"
 	"fmt"
 	"os"
@@ -193,9 +194,20 @@ func main() {
 				args = append(args, "-deadline", strconv.Itoa(d))
 			}
 			args = append(args, j.part.Args...)
-			cmd := exec.Command(filepath.Join(build, j.part.Bin), args...)
+			// hard limit per shard: internal deadline (if any) plus a generous margin; a shard that is still running
+			// then is killed and the whole check ends with "no verdict" (exit 3) instead of hanging
+			limit := 1800 * time.Second
+			if d := j.part.Deadline[tier]; d > 0 {
+				limit = time.Duration(d)*time.Second + 600*time.Second
+			}
+			ctx, cancel := context.WithTimeout(context.Background(), limit)
+			defer cancel()
+			cmd := exec.CommandContext(ctx, filepath.Join(build, j.part.Bin), args...)
 			cmd.Env = append(os.Environ(), "GOMAXPROCS=2")
 			outb, err := cmd.CombinedOutput()
+			if ctx.Err() != nil {
+				err = fmt.Errorf("killed after %s (hard limit): %v", limit, err)
+			}
 			if err != nil {
 				mu.Lock()
 				failures = append(failures, fmt.Sprintf("%s shard %d: %v\n%s", j.part.Name, j.shard, err, tail(string(outb), 3000)))
